@@ -171,6 +171,46 @@ pub fn run(sub: &str, cases: &[Vec<String>]) -> bool {
             }
             true
         }
+        "glob_flip" => {
+            // fields: <option name> <pattern> <quoted prefix> <string>*
+            // ONE shell: the option is switched off, on, off, on around the same pattern text; 4 x n bits
+            let rt = tokio::runtime::Builder::new_multi_thread()
+                .worker_threads(2)
+                .enable_all()
+                .build()
+                .expect("rt");
+            for c in cases {
+                let f = |i: usize| unhex_str(c.get(i).map_or("-", |s| s.as_str()));
+                let (optname, pat, qpre) = (f(0), f(1), f(2));
+                let strings: Vec<String> = c.iter().skip(3).map(|s| unhex_str(s)).collect();
+                let mut sc = String::new();
+                let other = if optname == "extglob" { "shopt -u nocasematch\n" } else { "shopt -s extglob\n" };
+                sc.push_str(other);
+                sc.push_str(&format!("p={}\nq={}\n", sq(&pat), sq(&qpre)));
+                for state in ["u", "s", "u", "s"] {
+                    sc.push_str(&format!("shopt -{state} {optname}\nfor s in"));
+                    for s in &strings {
+                        sc.push(' ');
+                        sc.push_str(&sq(s));
+                    }
+                    sc.push_str("; do\ncase $s in \"$q\"$p) printf 1;; *) printf 0;; esac\ndone\n");
+                }
+                let r = std::panic::catch_unwind(std::panic::AssertUnwindSafe(|| {
+                    crate::sh::run_script(&rt, "s", &sc, "")
+                }));
+                match r {
+                    Ok(r) => {
+                        let mut o = String::from_utf8_lossy(&r.out).into_owned();
+                        while o.chars().count() < 4 * strings.len() {
+                            o.push('E');
+                        }
+                        println!("{}", hex(o.as_bytes()));
+                    }
+                    Err(e) => println!("PANIC {}", hex(panic_msg(&e).as_bytes())),
+                }
+            }
+            true
+        }
         "glob_fs" => {
             let rt = tokio::runtime::Builder::new_multi_thread()
                 .worker_threads(2)
@@ -202,7 +242,14 @@ pub fn run(sub: &str, cases: &[Vec<String>]) -> bool {
                         sc.push_str(&format!("shopt -s {o}\n"));
                     }
                 }
-                sc.push_str(&format!("cd {}\nIFS=\np={}\nprintf '%s\\0' $p\n", sq(&dir), sq(&pat)));
+                if opts.split(',').any(|o| o == "flipdotglob") {
+                    // one shell: dotglob off, on, off around the same pattern text; the three word lists separated by \x01
+                    sc = sc.replace("shopt -s flipdotglob\n", "");
+                    sc.push_str(&format!("cd {}\nIFS=\np={}\n", sq(&dir), sq(&pat)));
+                    sc.push_str("shopt -u dotglob\nprintf '%s\\0' $p\nprintf '\\1\\0'\nshopt -s dotglob\nprintf '%s\\0' $p\nprintf '\\1\\0'\nshopt -u dotglob\nprintf '%s\\0' $p\n");
+                } else {
+                    sc.push_str(&format!("cd {}\nIFS=\np={}\nprintf '%s\\0' $p\n", sq(&dir), sq(&pat)));
+                }
                 let r = std::panic::catch_unwind(std::panic::AssertUnwindSafe(|| {
                     crate::sh::run_script(&rt, "s", &sc, "")
                 }));
